@@ -15,6 +15,9 @@ META = {
     "level_text": "Theorems in coq/Props/C20.v over coq/DD/ConfigApply.v (apply_not/apply_bin/apply_ite of the BDD kind and run_ops over API-call lists, parameterised by allocator, operand order, cache implementation and fork/join schedule; the instance allocator=fresh_id, schedule=sequential is the model of C02/C06, C20_seq_instance): (a) cache on (direct-mapped) / off / any lossy cache: identical table and edge per operation and identical tables for whole operation lists; (b) any two allocators / operand orders / schedules / caches: same value tables, same node counts, well-formed tables, per operation and for whole operation lists (C20_run_ops_observe); observables and the C03/C05 checkers invariant under every injective renaming of node ids for all five kinds (rename_snap); node count determined by the value table across two BDD tables; (c) either evaluation order of the two recursive calls and stale cache views give the same value table and node count, the identical edge when it already exists, and re-running under any other configuration in any later table returns the identical edge. Tie to the code: h_dd is built for cfg-default, cfg-pointer, cfg-index-nocache-st, cfg-pointer-nocache-mt (thorough: all 8 feature combinations) from /repo's working tree. (1) the same cases (per kind bdd/bcdd/zbdd: all 256 three-variable functions built two ways, not/eval/node_count/cofactors of all, all 65536 ordered pairs for each of the 8 binary operators, sampled ite triples; random histories with gc/reorder/add_vars/quantification/substitution/sat_count; mtbdd histories on the index store; histories with 1, 2 and 8 workers) run on every build; each run is checked by the DD driver (extracted wf_b, rc_exact_b, sem_edge, count_reach, spec layer; tags C01 C02 C03 C05) and the digests of all result tables, node counts, sat counts and variable orders are compared across builds x worker counts. (2) random histories over var/not_var/constants/not/8 binary operators/ite/clone/drop/node_count (2..8 variables) run on every build x {1,2,8} workers with a snapshot after every call; ocaml/c20_main.ml replays them on the extracted mstep under three model configurations (index-like store + no cache + sequential; address-like store + 4-bucket direct-mapped cache + every join to depth 3 swapped with stale caches; odd-id store + unbounded cache + mixed orders) and compares the observation (slots, value tables, node counts, order) of the real manager with each model state at every snapshot, node_count results with the model's count_reach, and evaluates rename_snap on the real tables. C20x (theorems C20_bcdd_* / C20_zbdd_* / C20_hist_example, models coq/DD/ConfigBcdd.v and coq/DD/ConfigZbdd.v = the complement-edge apply_bin/apply_ite/8 operators/var and the ZBDD union/intsec/diff/symm_diff/not/ite/8 operators/var with the same four parameters; the sequential fresh_id instances are the C02b/C09/C02z models): the same statements (a) cache/operand-order exactness, (b) node count determined by the value table / family across two tables, (a)+(b)+(c) one operation under two arbitrary configurations, either join order, rerun, and whole operation lists (crun_ops / zrun_ops: observations agree under two arbitrary configurations; identical tables when only cache and operand order differ). For ZBDD nand/nor/equiv (two recursions) an existing result edge is returned but the table may keep nodes of the intermediate result. The model tie (2) replays bcdd and zbdd histories on the extracted cmstep / zmstep under three model configurations each and evaluates bcok_b / zbdd_ok_b + zchain_ok_b on every model table. TDD (package TDDx, theorems C20_tdd_*): two TDD managers in ANY two configurations (operand order of terminal_bin = address order of the node store, cache implementation incl. none, its contents) fed the same client calls (constants, variables, not, 8 connectives, ite, cofactors, clone / drop, gc, add_vars; Mgr/TddHist.v) are observationally equal (same occupied slots, same value of every slot under every three-valued assignment, same value tables, same == answers: C20_tdd_hist_config_independent, _hist_run, _hist_observe). Tie (1): tdd groups (random histories with 1, 2, 8 workers, identity cases, node-count cases under several orders) run on every build configuration and on a debug-profile build of the default configuration; digests of all result / cofactor tables, eval results, node counts and variable orders must coincide.",
     "level_note": "Trusted: Coq kernel, extraction, the two OCaml drivers, Rust harness, cargo feature resolution. The apply models and hence theorems (a), (c) and run_ops are for the BDD, BCDD and ZBDD (Boolean interface + union/intsec/diff) kinds (MTBDD/TDD apply rules, ZBDD subset/change/restrict and quantification/substitution are not restated with configuration parameters; for those configuration independence is carried by the renaming theorems, which hold for all kinds, plus correspondence run (1)). The schedule model is fork/join granular (either order of the two closures of WorkerPool::join, stale cache view for the one that runs second); instruction-level interleaving inside the concurrent unique table / cache is C07's subject. The allocator is a function of the table (no hidden free-list state). gc and reordering are not operations of run_ops (C05/C08); they are exercised on every configuration by correspondence run (1).",
 }
+# package ARCSLAB (the two node stores): coq/Tbl/RcStore.v, coq/Tbl/ArcSlabRefine.v, theorems C20_store_* / C20_arcslab_*
+META["level_text"] += " Node stores (package ARCSLAB, C20_store_* / C20_arcslab_*, 11 theorems): the abstract node store (coq/Tbl/RcStore.v: a map id -> (payload, count) with fresh ids + the client's handle variables) keeps 'count = number of handles, never 0' under every step (store_step_inv) and its results do not depend on the ids: two stores with any id types and any choice of fresh ids return the same results for the same script from related states (store_id_independent, store_runs_id_independent); the model of the pointer-based manager's store (crate arcslab, coq/Tbl/ArcSlab.v) refines it in every reachable state: every item-level operation is one abstract step with the same result, every other operation leaves the abstract state unchanged (arcslab_abs_inv, arcslab_refines_store); a reference store with ids 0,1,2,... refines it as well (arcslab_reference_refines), so slab and reference store return the same results for every script, rejected operations included, for every page size (arcslab_equiv_reference, arcslab_page_size_irrelevant). Tie of the slab model to the crate: the arcslab stage of ./check C05 (checks/arcslabcommon.py)."
+META["level_note"] += " Node stores (package ARCSLAB): the slot allocator of the index-based manager is modelled separately (package ALLOC, coq/Mgr/Alloc.v); its refinement of coq/Tbl/RcStore.v is not proved here (the reference store stands for 'a store with another id discipline')."
 ALLOWED_AXIOMS = ()
 
 CONFIGS_ALL = ["cfg-default", "cfg-pointer", "cfg-index-nocache-st", "cfg-pointer-nocache-mt",
